@@ -679,19 +679,20 @@ func triggers(o Op) flagset {
 }
 
 type engine struct {
-	p     *topics.MemTopics
-	spec  *specModel
-	ops   []Op
-	rel   flagset // flags triggered by the ops so far
-	vms   [1 << nFlags]*machine
-	known func(string) bool
-	hits  map[string]int
-	sb    []interface{}
-	qb    []byte
-	mb    []*message.PublishMessage
-	want  []vent
-	wantR []vmsg
-	got   obsv
+	nameBuf []byte // reused for every Subscribers look-up of probeSubs
+	p       *topics.MemTopics
+	spec    *specModel
+	ops     []Op
+	rel     flagset // flags triggered by the ops so far
+	vms     [1 << nFlags]*machine
+	known   func(string) bool
+	hits    map[string]int
+	sb      []interface{}
+	qb      []byte
+	mb      []*message.PublishMessage
+	want    []vent
+	wantR   []vmsg
+	got     obsv
 }
 
 func newEngine(known func(string) bool) *engine {
@@ -895,7 +896,11 @@ func (e *engine) checkSubs(name string, nameB []byte, pq byte, want []vent) *fai
 
 func (e *engine) probeSubs(name string, pq byte) *failure {
 	e.want = e.spec.subscribers(name, pq, e.want[:0])
-	return e.checkSubs(name, []byte(name), pq, e.want)
+	// the caller's buffer is the caller's: one buffer, rewritten in place for every look-up
+	// (a publisher that reuses its topic buffer; the broker's own decoded topics live in a
+	// ring that is overwritten, too)
+	e.nameBuf = append(e.nameBuf[:0], name...)
+	return e.checkSubs(name, e.nameBuf, pq, e.want)
 }
 
 func (e *engine) probeRet(filter string, filterB []byte) *failure {
